@@ -148,8 +148,6 @@ def bypass(S, cfg):
                 k_out = rr.duct._data['thermal_conductivity'](avg_mw[i + 1])
                 f_in = (Tmw[i, c] - Tb[i, c]) / (1 / h + rr.d['wall'][i] / (2 * k_in))
                 f_out = (Tmw[i + 1, c] - Tb[i, c]) / (1 / h + rr.d['wall'][i + 1] / (2 * k_out))
-                # the code uses the inner face length for both walls in this approximation
-                face_out = face_in
             else:
                 f_in = h * (Ts[i, 1, c] - Tb[i, c])
                 f_out = h * (Ts[i + 1, 0, c] - Tb[i, c])
